@@ -209,6 +209,37 @@ def edge_variant_db(r):
         alt = r.choice([c for c in "ACGT" if c != seq[L - 1]])
         doc["alleles"][f"{doc['name']}*88.001"] = {"mutations": [[L, f"{seq[L - 1]}>{alt}", "-", "functional"]]}
         y = yaml.safe_dump(doc, sort_keys=False, default_flow_style=None)
+    if r.random() < 0.6:
+        # an insertion inside a tandem repeat of its own sequence (insCT in CTCT): aligners report it at the leftmost
+        # position of the repeat, which is the catalogue position on one strand only
+        doc = yaml.safe_load(y)
+        seq = list(doc["reference"]["seq"])
+        ents = [(an, e) for an, al in doc["alleles"].items() for e in al["mutations"] if isinstance(e[0], int)]
+        ins = [e for an, e in ents if str(e[1]).startswith("ins")]
+        r.shuffle(ins)
+        for e in ins:
+            unit = e[1][3:]
+            lo_, hi_ = e[0] - 2 * len(unit) - 1, e[0] + 2 * len(unit) + 2
+            if lo_ < 2 or hi_ >= len(seq) - 2:
+                continue
+            clash = False
+            for an2, e2 in ents:
+                if e2[0] == e[0] and e2[1] == e[1]:
+                    continue
+                w2 = len(e2[1].split(">")[0]) if ">" in e2[1] else (len(e2[1][3:].split("ins")[0]) if e2[1].startswith("del") else 1)
+                if e2[0] + w2 >= lo_ and e2[0] <= hi_:
+                    clash = True
+                    break
+            if clash:
+                continue
+            # bases after the anchor (1-based e[0]) become two copies of the unit, the anchor and the bases before it one copy
+            for j in range(2 * len(unit)):
+                seq[e[0] + j] = unit[j % len(unit)]
+            for j in range(len(unit)):
+                seq[e[0] - 1 - j] = unit[len(unit) - 1 - (j % len(unit))]
+            doc["reference"]["seq"] = "".join(seq)
+            y = yaml.safe_dump(doc, sort_keys=False, default_flow_style=None)
+            break
     if r.random() < 0.5:
         # a SNP on the first / last RefSeq base of a gene region (where a fused structure switches between gene and
         # pseudogene): both builds must assign it to the same region
@@ -412,6 +443,12 @@ def tie(ctx):
                 with_ins = [(a, mi) for a in majors for mi in ga.alleles[a].minors if any(m[1].startswith("ins") for m in sim.copy_variants(ga, a, mi))]
                 if with_ins:
                     copies = [r.choice(with_ins)] * 2
+            elif k % 4 == 1:
+                # ... or carrying an allele with a deletion of several bases (its text is reverse-complemented on the - strand)
+                with_del = [(a, mi) for a in majors for mi in ga.alleles[a].minors
+                            if any(m[1].startswith("del") and "ins" not in m[1] and len(m[1]) > 4 for m in sim.copy_variants(ga, a, mi))]
+                if with_del:
+                    copies = [r.choice(with_del), copies[1]]
             outs = []
             prof_a = sim.simulate_reads(genes[0], [("1", "1.001"), ("1", "1.001")], depth=12)
             smp_a = sim.simulate_reads(genes[0], copies, depth=12)
